@@ -125,6 +125,12 @@ def main():
                 meta['confirmed_by_me'] = {'what_i_ran': 'in a scratch worktree of /repo (HEAD incl. the fix: commits at that time): demo.py without the patch (exit 0), `git apply patch.diff`, demo.py with the patch (exit 1), '
                                            'then the full pinned test suite with the patch applied (/root/seedtools/run_tests.sh: every one of the 6212 tests that pass on the unchanged tree still passes)',
                                            'confirmation_log_tail': txt[-1200:], 'confirmed': ok, 'checks_evaluated_against_repo_head': head}
+                try:
+                    prev = json.load(open(os.path.join(dst, 'meta.json'))).get('confirmed_by_me', {}).get('demo_exit_on_current_head')
+                except Exception:   # noqa
+                    prev = None
+                if prev:
+                    meta['confirmed_by_me']['demo_exit_on_current_head'] = prev
                 json.dump(meta, open(os.path.join(dst, 'meta.json'), 'w'), indent=1)
                 if not ok:
                     json.dump({'not_run': 'not confirmed (see meta.json): kept for the record only'}, open(os.path.join(dst, 'results.json'), 'w'), indent=1)
